@@ -692,6 +692,47 @@ def check_frame(mod, qual, modifies=(), fresh_result=False, result_may_share=(),
     return out, s
 
 
+
+# ---- values produced by caller-supplied callables are used by truth value ------------------------------------------
+
+def check_truth_value_use(mod, qual, cls_mod='autop'):
+    """Contract: a value obtained by calling a caller-supplied attribute (an attribute that some pytenet constructor
+    documents as `Callable` / `Union[..., Callable[...]]`, e.g. AutOpEdge.active) is used as a condition by its truth value
+    only; comparing it with `is` / `is not` / `==` / `!=` against True / False distinguishes bool from numpy.bool_ and int,
+    which all satisfy the documented type.  Purely syntactic over the real AST; -> (status, detail)"""
+    m = loader.module(mod)
+    fn = m.functions[qual]
+    callable_attrs = set()
+    for mm in ALL_MODULES:
+        for q, f in loader.module(mm).functions.items():
+            if q.endswith('.__init__'):
+                for a in f.args.args:
+                    if a.annotation is not None and 'Callable' in ast.unparse(a.annotation):
+                        callable_attrs.add(a.arg)
+    def from_callback(e):
+        return any(isinstance(x, ast.Call) and isinstance(x.func, ast.Attribute) and x.func.attr in callable_attrs for x in ast.walk(e))
+    tainted = set()
+    for _ in range(3):
+        for n in ast.walk(fn):
+            if isinstance(n, ast.Assign) and (from_callback(n.value) or any(isinstance(x, ast.Name) and x.id in tainted for x in ast.walk(n.value))):
+                for t in n.targets:
+                    if isinstance(t, ast.Name):
+                        tainted.add(t.id)
+    bad = []
+    for n in ast.walk(fn):
+        if isinstance(n, ast.Compare) and any(isinstance(o, (ast.Is, ast.IsNot, ast.Eq, ast.NotEq)) for o in n.ops):
+            sides = [n.left] + list(n.comparators)
+            if any(isinstance(x, ast.Constant) and isinstance(x.value, bool) for x in sides) and \
+                    any((isinstance(x, ast.Name) and x.id in tainted) or from_callback(x) for x in sides):
+                bad.append(f'line {n.lineno}: {ast.unparse(n)}')
+    if not callable_attrs:
+        return 'undecided', 'no constructor parameter documented as Callable was found'
+    if bad:
+        return 'refuted', 'the result of a caller-supplied callable is compared with a bool constant: ' + '; '.join(bad[:3])
+    return 'discharged', (f'values obtained from caller-supplied callables ({", ".join(sorted(callable_attrs))}; {len(tainted)} local name(s)) '
+                          'are used by truth value only')
+
+
 # ---- definite initialisation of instance state ("the result does not depend on a previous call") ------------------
 
 def _self_reads(cls_node, fnode, seen=None):
